@@ -9,5 +9,5 @@ python3 tools/translate.py "$REPO" lean
 (cd lean && lake build LopdfModel drv)
 [ -f harness/Cargo.lock ] || cp "$REPO"/Cargo.lock harness/Cargo.lock
 (cd harness && cargo build --release --offline)
-(cd harness && cargo build --release --offline --no-default-features --target-dir target-seq)
+(cd harness && cargo build --release --offline --no-default-features --features dates --target-dir target-seq)
 echo "setup ok"
